@@ -1,4 +1,9 @@
+#[cfg(not(feature = "verif"))]
 use std::sync::{Arc, Mutex};
+#[cfg(feature = "verif")]
+use std::sync::Arc;
+#[cfg(feature = "verif")]
+use crate::verif::sync::Mutex;
 
 use super::RotoString;
 
